@@ -567,6 +567,23 @@ def corpus():
                             ["Change", 1, 2], ["Change", 2, 2], ["Mut", 0, "kids", "setslice", [2, 1]], ["Change", 1, 2],
                             ["Mut", 0, "kids", "setslice", [1]], ["Change", 2, 2], ["Change", 1, 2],
                             ["Unreg", 0, 0, 0, None, text], ["Change", 1, 2], ["Unreg", 0, 0, 0, None, text]]))
+    # the SAME object under two keys of a dict (twice in a list): leaving under one key / position un-hooks one
+    # occurrence; a key (position) re-assigned the value it already holds un-hooks and re-hooks it
+    dd = [{"cls": "N", "kids": [1, 1], "m": [1, 1], "s": [1]}, {"cls": "N", "kids": [], "m": [], "s": []},
+          {"cls": "N", "kids": [], "m": [], "s": []}]
+    for text in ("m.items.value", "m:items:value"):
+        cs.append(dict(objs=dd, handlers=["func"],
+                       ops=[["Reg", 0, 0, 0, None, text], ["Mut", 0, "m", "ddel", "k0"], ["Change", 1, 2],
+                            ["Mut", 0, "m", "ddel", "k1"], ["Change", 1, 2], ["Unreg", 0, 0, 0, None, text], ["Change", 1, 2],
+                            ["Unreg", 0, 0, 0, None, text]]))
+        cs.append(dict(objs=dd, handlers=["func"],
+                       ops=[["Reg", 0, 0, 0, None, text], ["Mut", 0, "m", "dset", "k0", 1], ["Change", 1, 2],
+                            ["Mut", 0, "m", "dset", "k1", 2], ["Change", 1, 2], ["Mut", 0, "m", "dset", "k0", 2], ["Change", 1, 2],
+                            ["Change", 2, 2], ["Unreg", 0, 0, 0, None, text], ["Change", 2, 2], ["Unreg", 0, 0, 0, None, text]]))
+    cs.append(dict(objs=dd, handlers=["func"],
+                   ops=[["Reg", 0, 0, 0, None, "kids.items.value"], ["Mut", 0, "kids", "setitem", 0, 1], ["Change", 1, 2],
+                        ["Mut", 0, "kids", "pop", 0], ["Change", 1, 2], ["Mut", 0, "kids", "pop", 0], ["Change", 1, 2],
+                        ["Unreg", 0, 0, 0, None, "kids.items.value"], ["Change", 1, 2]]))
     # add_trait re-defining an instance-only trait that is observed: the notifiers are carried over, nothing is added
     for g_dyn in ([N_("extra", True, True)], [N_("extra", True, True, [N_("value")])]):
         cs.append(dict(objs=pend, handlers=["func"],
